@@ -33,6 +33,10 @@ type E2 struct {
 	ServeRetTime time.Duration
 	Ctx          context.Context
 	Cancel       context.CancelFunc
+	// PeerEstLen is how many bytes the peer wrote during establishment (header
+	// and feature list); PeerHeader is the header part of it.
+	PeerEstLen int
+	PeerHeader []byte
 }
 
 // E2Opts selects the session variant.
@@ -84,8 +88,15 @@ func (rc *RC) NewE2(o E2Opts) *E2 {
 		rc.Infraf("E2 establishment failed: %v (status %v, stuck %v)", e.EstErr, st, rc.S.Stuck())
 		return nil
 	}
-	// drop what the peer end has buffered from the SUT so far (the header)
+	pt := e.Peer.Out().Tap
+	e.PeerEstLen = len(pt)
+	e.PeerHeader = append([]byte(nil), pt[:bytes.Index(pt, []byte("<stream:features/>"))]...)
 	return e
+}
+
+// PeerStream is the peer's header followed by everything it wrote after establishment.
+func (e *E2) PeerStream() []byte {
+	return append(append([]byte(nil), e.PeerHeader...), e.Peer.Out().Tap[e.PeerEstLen:]...)
 }
 
 // HeaderLen is the number of bytes of the SUT's stream header on the wire.
